@@ -1,10 +1,8 @@
 """C01: load/save round trip is exact and reaches a byte-level fixed point."""
-from props import fblock
+from props import fblock, fmfile
 ID = "C01"
 LEVEL = "model_checking"
-HARNESS = [fblock.GEN]
-MODULE = "fblock"
-ENTRIES = fblock.ENTRIES
+MODULES = fmfile.modules()
 prepare = fblock.prepare
 BOUNDS = {
     "quick": {"block_types": "all registered (from Factory.cpp)", "version": "symbolic (file,user,stream) under the loader's acceptance predicate", "count_cap_B": 1, "input_bytes_L": 256, "budget_s_per_type": 8},
@@ -29,10 +27,15 @@ def owns_violation(v):
 
 
 def jobs(tier, seed):
-    return fblock.jobs_for("h_roundtrip", tier, seed)
+    J = fblock.jobs_for("h_roundtrip", tier, seed)
+    for j in J:
+        j["mod"] = "fblock"
+    J += fmfile.jobs("h_file_fixedpoint", tier, sympos=True)
+    return J
 
 
 def signature(job, v):
-    ver = ""
-    m = v.get("model", {})
+    if job.get("mod") == "fmfile":
+        top = next((f for f in v["stack"] if "nifly" in f), "")
+        return "%s:%s:%s" % (job["entry"], v["aid"], top[:50])
     return "%s:%s:%s" % (job["entry"], fblock.type_of(job), v["aid"])
